@@ -210,6 +210,7 @@ func (c *Coordinator) updateScrapeStatusShards(shards []*shardInfo, status map[u
 // 1. not exist in active targets
 // 2. is in_transfer state and had been scraped by other shard
 // 3. is normal state and had been scraped by other shard with lower head series (the earlier shard wins a tie)
+// a target that is in_transfer state but is not known to any other shard goes back to normal state
 func (c *Coordinator) gcTargets(changeAbleShards []*shardInfo, active map[uint64]*discovery.SDTargets) {
 	for i, s := range changeAbleShards {
 		for h, tar := range s.scraping {
@@ -223,11 +224,16 @@ func (c *Coordinator) gcTargets(changeAbleShards []*shardInfo, active map[uint64
 				continue
 			}
 
+			held := false
 			for j, other := range changeAbleShards {
 				if s == other {
 					continue
 				}
 				st := other.scraping[h]
+				if st != nil {
+					held = true
+				}
+
 				if st != nil && st.ScrapeTimes >= minWaitScrapeTimes {
 					// is in_transfer state and had been scraped by other shard
 					if tar.TargetState == target.StateInTransfer && st.TargetState == target.StateNormal {
@@ -245,6 +251,11 @@ func (c *Coordinator) gcTargets(changeAbleShards []*shardInfo, active map[uint64
 						}
 					}
 				}
+			}
+
+			// the shard that should take this target over never got it (or lost it)
+			if !held && tar.TargetState == target.StateInTransfer {
+				tar.TargetState = target.StateNormal
 			}
 		}
 	}
